@@ -73,14 +73,30 @@ def build(tier):
 
 
 # ------------------------------------------------------------------------------ running
+# no symbolisation and no DWARF unwinding inside the crashing child (seconds of CPU per report on a
+# 40 MB binary): the frame is reported as an offset and resolved here with one `nm` per binary
 ENV = {"ASAN_OPTIONS": "detect_leaks=0:abort_on_error=0:halt_on_error=1:allocator_may_return_null=1:"
-                       "detect_stack_use_after_return=0:hard_rss_limit_mb=6000",
-       "UBSAN_OPTIONS": "print_stacktrace=1:halt_on_error=1"}
-RISKY = ("long-", "hdr-", "hang", "enc-size", "reenc", "atoi", "chksum", "ub-int", "known-witness", "replay", "shrink", "corpus")
-
-
+                       "detect_stack_use_after_return=0:hard_rss_limit_mb=6000:symbolize=0:fast_unwind_on_fatal=1",
+       "UBSAN_OPTIONS": "print_stacktrace=0:halt_on_error=1"}
 def risky(case, rest):
-    return case.cls.startswith(RISKY) or case.origin != "gen" or len(rest) > 3600
+    """Run the case in a forked child?  Exactly those expected to end abnormally (a miss only costs
+    a restart of the harness: the culprit is then re-run isolated)."""
+    if case.origin != "gen" or case.cls.startswith(("hang-shape", "ub-int")):
+        return True
+    w = rest.split(" ")
+    try:
+        if w[0] in ("DEC", "REENC"):
+            data = bytes.fromhex(w[2]) if w[2] != "-" else b""
+            return run_violates(data) or hdr_violates(data) or (w[0] == "REENC" and len(data) > 8000)
+        if w[0] == "ENC":
+            return len(rest) > 16000
+        if w[0] == "ATOI":
+            return py_atoi_ub(bytes.fromhex(w[1]) if w[1] != "-" else b"")
+        if w[0] == "CHKSUM":
+            return int(w[1]) % 4 != 0 and len(w[2]) >= 16
+    except Exception:
+        return True
+    return False
 
 
 def run_chunk(exe, lines, flags):
@@ -122,7 +138,7 @@ def run_impl(built, cases, tier):
         s, rest = G.schema_of(c.line, default)
         by.setdefault(s, []).append((k, rest, risky(c, rest)))
     jobs = []
-    workers = 6
+    workers = 8
     for s, items in by.items():
         # interleave so that the expensive (isolated) cases spread over the workers
         for w in range(workers):
@@ -137,6 +153,45 @@ def run_impl(built, cases, tier):
     return res
 
 
+_syms = {}
+
+
+def resolve(exe, off):
+    """Function containing the code offset `off` of the (PIE) binary, demangled, without arguments."""
+    if exe not in _syms:
+        out = subprocess.run(["nm", "-n", "-C", "--defined-only", exe], stdout=subprocess.PIPE, timeout=300).stdout.decode(errors="replace")
+        tab = []
+        for line in out.split("\n"):
+            w = line.split(" ", 2)
+            if len(w) == 3 and w[1] in "TtWw":
+                try:
+                    tab.append((int(w[0], 16), w[2]))
+                except ValueError:
+                    pass
+        _syms[exe] = tab
+    tab = _syms[exe]
+    lo, hi = 0, len(tab)
+    while lo < hi:
+        mid = (lo + hi) // 2
+        if tab[mid][0] <= off:
+            lo = mid + 1
+        else:
+            hi = mid
+    if lo == 0:
+        return "?"
+    name = tab[lo - 1][1]
+    depth, cut = 0, len(name)
+    for i, ch in enumerate(name):
+        if ch == "<":
+            depth += 1
+        elif ch == ">":
+            depth -= 1
+        elif ch == "(" and depth == 0:
+            cut = i
+            break
+    return name[:cut].split(" ")[-1]
+
+
 FRAME_CLASS = {"FIX8::MessageBase::extract_header": "OOB extract_header", "FIX8::Message::factory": "OOB extract_header",
                "FIX8::MessageBase::decode": "OOB decode", "FIX8::MessageBase::decode_group": "OOB decode",
                "FIX8::Message::encode": "OOB encode"}
@@ -146,13 +201,22 @@ def postprocess(case, r):
     """Sanitizer summaries of h_c03 -> the model's vocabulary (function level)."""
     if r.startswith("CRASH asan stack-buffer-overflow WRITE"):
         m = re.search(r"frame=(\S+)", r)
-        if m and m.group(1) in FRAME_CLASS:
-            return FRAME_CLASS[m.group(1)]
-    if r.startswith("CRASH ubsan f8utils.hpp") and r.endswith(" in FIX8::fast_atoi<int>") and \
-            ("signed integer overflow" in r or "left shift of" in r):
+        if m:
+            fn = m.group(1)
+            if fn.startswith("+0x"):
+                built = _state["built"]
+                schema, _ = G.schema_of(case.line, next(iter(built["exes3"])))
+                fn = resolve(built["exes3"][schema], int(fn[1:], 16))
+            if fn in FRAME_CLASS:
+                return FRAME_CLASS[fn]
+            return r + " [" + fn + "]"
+    if r.startswith("CRASH ubsan f8utils.hpp") and ("signed integer overflow" in r or "left shift of" in r):
         return "UB fast_atoi"
-    if r.startswith("CRASH ubsan message.hpp") and "misaligned address" in r and r.endswith(" in FIX8::Message::calc_chksum"):
+    if r.startswith("CRASH ubsan message.hpp") and "misaligned address" in r and "uint32_t" in r:
         return "UB calc_chksum"
+    m = re.match(r"EXC MissingRepeatingGroupField -(\d+)$", r)
+    if m:       # the harness prints the unsigned tag through an int
+        return "EXC MissingRepeatingGroupField %d" % (2 ** 32 - int(m.group(1)))
     return r
 
 
@@ -223,12 +287,12 @@ def py_atoi_ub(txt):
     return False
 
 
-def admissible(meta, data, allowed=frozenset(), ub_ok=False):
+def admissible(meta, data, allowed=None, ub_ok=False):
     """Generator-side filter (see ASSUMPTIONS): typed texts unchanged or plain digits, no
     uninitialised tag read, no fast_atoi UB unless the case is about it."""
     toks = tokens(data)
     for i, (tag, val) in enumerate(toks):
-        if not tag or len(tag) > 12:
+        if not tag or len(tag) > 12 or i < 3:       # 8, 9, 35 are not built from their text by decode
             continue
         f = int(tag) % 65536
         ft = meta.fields.get(f, (None,))[0]
@@ -240,7 +304,7 @@ def admissible(meta, data, allowed=frozenset(), ub_ok=False):
                 return False
             if ft == 2 and f != 9 and i + 1 < len(toks) and len(toks[i + 1][0]) > len(tag):
                 return False
-        elif (tag, val) not in allowed:
+        elif allowed is not None and (tag, val) not in allowed:
             return False
     # a Length field directly followed by bytes that are not a token: the fixed-width extractor sees them
     return True
@@ -282,7 +346,7 @@ def gen_schema(rng, tier, meta, px, cs):
     def allowed_of(data):
         return frozenset(tokens(data))
 
-    def add(data, cls, mode=None, allowed=frozenset(), ub_ok=False):
+    def add(data, cls, mode=None, allowed=None, ub_ok=False):
         if admissible(meta, data, allowed, ub_ok):
             cs.append(dec(px, mode or pick_modes(rng), data, cls))
             return True
@@ -291,7 +355,7 @@ def gen_schema(rng, tier, meta, px, cs):
     # -- mostly valid
     for mt in types:
         cs.append(dec(px, "s", valid(mtype=mt)[4], "valid-type"))
-    for i in range(k(260, 1500)):
+    for i in range(k(200, 1500)):
         g = rich if i % 4 == 0 else gen
         mt, hdr, body, trl, w = valid(g)
         cs.append(dec(px, pick_modes(rng), w, "valid"))
@@ -306,7 +370,7 @@ def gen_schema(rng, tier, meta, px, cs):
     # -- byte flips
     alphabet = [0, 1, 1, 61, 61, 48, 57, 49, 0x80, 0xff, 65, 32, 124]
     n = 0
-    while n < k(420, 3000):
+    while n < k(320, 3000):
         mt, hdr, body, trl, w = valid()
         al = allowed_of(w)
         b = bytearray(w)
@@ -319,7 +383,7 @@ def gen_schema(rng, tier, meta, px, cs):
             n += 1
     # -- deleted / duplicated separators, swapped tokens, junk
     n = 0
-    while n < k(160, 1000):
+    while n < k(120, 1000):
         mt, hdr, body, trl, w = valid()
         al = allowed_of(w)
         idx = [i for i, ch in enumerate(w) if ch in (1, 61)]
@@ -411,41 +475,36 @@ def gen_schema(rng, tier, meta, px, cs):
             add(w[:i9] + b"9" * nt + w[i9 + 1:], "hdr-tag9-%d" % nt)
             i35 = w.index(b"\x0135=") + 1
             add(w[:i35] + b"35" + b"5" * (nt - 2 if nt > 2 else 0) + w[i35 + 2:], "hdr-tag35-%d" % nt)
-    # -- group counts: huge, zero, mismatching, UB
+    # -- group counts: huge, zero, mismatching the number of elements
+    msg_groups = [g for g in no + yes if g[0] in meta.msgs and meta.first_field(g[2]) is not None]
     for _ in range(k(40, 300)):
-        owner, f, sub = rng.choice([g for g in no + yes if g[0] in meta.msgs])
+        owner, f, sub = rng.choice(msg_groups)
         mt, hdr, body, trl, w = valid(mtype=owner)
-        first = meta.first_field(sub)
-        if first is None:
-            continue
-        ft = meta.trait(sub, first)
-        nel = rng.choice((0, 1, 2, 3))
-        elems = [[G.Fld(first, G.gen_value(rng, ft.ftype))] for _ in range(nel)]
+        elems = [gen.part(sub, 1, True) for _ in range(rng.choice((0, 1, 2, 3)))]
         cnt = rng.choice((b"0", b"1", b"2", b"7", b"999999999", b"2147483599", b"00000000001", b"1x", b""))
         body[:] = [x for x in body if x.fnum != f] + [G.Fld(f, cnt, elems)]
         add(wire(meta, mt, hdr, body, trl), "group-count")
-    for cnt in (b"2147483600", b"4294967295", b"-1", b"99999999999", b"+5", b" 1"):
-        for _ in range(k(1, 3)):
-            owner, f, sub = rng.choice([g for g in no + yes if g[0] in meta.msgs])
+    # -- fast_atoi<int> UB inside otherwise valid messages: counts whose wrapped value stays positive
+    #    (the elements are still decoded), any text in plain int fields
+    for cnt in (b"2147483600", b"99999999999", b"2147483647", b"3000000000000"):
+        for _ in range(k(2, 5)):
+            owner, f, sub = rng.choice(msg_groups)
             mt, hdr, body, trl, w = valid(mtype=owner)
-            first = meta.first_field(sub)
-            if first is None:
-                continue
-            ft = meta.trait(sub, first)
-            body[:] = [x for x in body if x.fnum != f] + [G.Fld(f, cnt, [[G.Fld(first, G.gen_value(rng, ft.ftype))]])]
+            body[:] = [x for x in body if x.fnum != f] + [G.Fld(f, cnt, [gen.part(sub, 1, True)])]
             add(wire(meta, mt, hdr, body, trl), "ub-int", mode="s", ub_ok=True)
-    ints = [f for f, (ty, _) in meta.fields.items() if ty in INT_TYPES]
-    for txt in (b"2147483647", b"2147483600", b"2147483599", b"-5", b"-", b"1-", b"999999999999", b"\xff\xff", b"12a", b"/1"):
-        mt, hdr, body, trl, w = valid()
-        cand = [t for t in meta.traits.get(mt, []) if t.ftype == 1 and not t.group]
-        if not cand:
-            mt = "D"
-            mt, hdr, body, trl, w = valid(mtype=mt)
-            cand = [t for t in meta.traits.get(mt, []) if t.ftype == 1 and not t.group]
+    plain_int = {}
+    for mt in types:
+        cand = [t for t in meta.traits.get(mt, []) if t.ftype in (1, 3, 4, 6) and not t.group and meta.fields.get(t.fnum, (0,))[0] in (1, 3, 4, 6)]
         if cand:
-            t = rng.choice(cand)
-            body[:] = [x for x in body if x.fnum != t.fnum] + [G.Fld(t.fnum, txt)]
-            add(wire(meta, mt, hdr, body, trl), "ub-int", mode="s", ub_ok=True)
+            plain_int[mt] = cand
+    for txt in (b"2147483647", b"2147483600", b"2147483599", b"-5", b"-", b"1-", b"999999999999", b"\xff\xff", b"12a", b"/1", b"+5", b" 1", b"-1"):
+        if not plain_int:
+            break
+        mt = rng.choice(sorted(plain_int))
+        mt, hdr, body, trl, w = valid(mtype=mt)
+        t = rng.choice(plain_int[mt])
+        body[:] = [x for x in body if x.fnum != t.fnum] + [G.Fld(t.fnum, txt)]
+        add(wire(meta, mt, hdr, body, trl), "ub-int", mode="s", ub_ok=True)
     # -- NULs
     n = 0
     while n < k(40, 300):
@@ -647,24 +706,39 @@ def c_encode_overflow(case, r, m):
     return False
 
 
+def _class_tags(meta, sub, seen=None):
+    """tags of a group class and of the classes nested in it"""
+    seen = set() if seen is None else seen
+    for t in meta.traits.get(sub, []):
+        seen.add(t.fnum)
+    for f, s2 in meta.groups.get(sub, {}).items():
+        _class_tags(meta, s2, seen)
+    return seen
+
+
 def c_group_hang(case, r, m):
-    """a count > 0 of a group class without mandatory member, directly followed by bytes that
-    extract_element rejects (no 'digits=' ... SOH token)."""
+    """The input opens a group whose class has no mandatory member (count > 0) and, while that group
+    is open (only tags of the class seen since), presents bytes that extract_element rejects."""
     meta, data = _dec_bytes(case)
     if data is None or r != "HANG":
         return False
     no, yes = nomand_groups(meta)
-    counts = {f for _, f, _ in no}
+    subs = {}
+    for _, f, sub in no:
+        subs.setdefault(f, set()).update(_class_tags(meta, sub))
     pos = 0
-    while pos < len(data):
-        m_ = re.match(rb"(\d*)=([^\x01]*)\x01", data[pos:])
+    open_tags = None
+    end = len(data)        # body groups are decoded with ignore = 0: up to the very end
+    while pos < end:
+        m_ = re.match(rb"(\d*)=([^\x01]*)\x01", data[pos:end])
         if not m_:
-            return False
+            return open_tags is not None
         pos += m_.end()
-        tag = m_.group(1)
-        if tag and int(tag) % 65536 in counts and re.match(rb"0*[1-9]", m_.group(2)):
-            if not re.match(rb"\d*=[^\x01]*\x01", data[pos:len(data) - 7]):
-                return True
+        tag = int(m_.group(1)) % 65536 if m_.group(1) and len(m_.group(1)) < 12 else -1
+        if open_tags is not None and tag not in open_tags:
+            open_tags = None
+        if tag in subs and re.match(rb"0*[1-9]", m_.group(2)):
+            open_tags = subs[tag]
     return False
 
 
@@ -717,7 +791,7 @@ def shrink(case):
         half = (m_.end() - m_.start()) // 2
         d = data[:m_.start() + half] + data[m_.end():]
         out.append(Case(prefix + (d.hex() or "-"), "shrink"))
-    return out[:80]
+    return out[:24]
 
 
 def extra_evidence(ctx):
